@@ -8,6 +8,10 @@ case args: sh=mock|det self=<addr> other=<addr|-> remote=<ids|-> peers=<addrs> t
 op:   ev rt=in|peer st=off|skip|drop|keep fin=0|1 fpeer=0|1 enc=map|msgp|bad
          host=<s> key=<s> ds=<s> env=<s> rate=<n> ts=<sec.nsec> f=<field,…|->
       field = <key>;<s|i|b|n>;<value>     (strings percent-encoded by the harness, "%" = empty)
+      dsdecode <segment>    real getDatasetFromRequest on a request whose mux variable is <segment>;  obs ok <ds> | err
+      dsescape <dataset>    Go's url.PathEscape (pins the model of the external function);           obs <segment>
+      dshop <dataset>       real buildRequestURL -> request line -> mux with the router's route template
+                            -> real getDatasetFromRequest;   ext seg <dataset> = <segment|!nomatch>;  obs ok <ds> | err | nomatch
 ext:  which <trace id> = <address>        every Sharder.WhichShard call the router made
 obs:  err=<none|wouldblock|invalid|other> imm=<n> n=<k> <call>… final=<obj|->
       call = <up|upcoll|peer|cin|cpeer>~<accepted 0|1>~<span trace id|->~<span IsRoot|->~<obj>
@@ -111,12 +115,59 @@ def showResult (r : Result) (imm : Nat) : String :=
   let fin := if r.err == .invalid then "final=-" else "final=" ++ showObj r.final
   " ".intercalate ([head] ++ calls ++ [fin])
 
+/-! ## dataset hop: tokens are kit.Enc-encoded byte strings -/
+
+def hexVal (c : Char) : Nat :=
+  let n := c.toNat
+  if 48 ≤ n && n ≤ 57 then n - 48 else if 97 ≤ n && n ≤ 102 then n - 87 else n - 55
+
+/-- inverse of the harness' `kit.Enc` down to bytes ("%" alone = empty) -/
+def decBytes (s : String) : List Nat :=
+  if s == "%" then [] else
+    let rec go : List Char → List Nat
+      | '%' :: a :: b :: t => (16 * hexVal a + hexVal b) :: go t
+      | c :: t => c.toNat :: go t
+      | [] => []
+    go s.toList
+
+def kitSafe (c : Nat) : Bool :=
+  (97 ≤ c && c ≤ 122) || (65 ≤ c && c ≤ 90) || (48 ≤ c && c ≤ 57) ||
+    c == 46 || c == 95 || c == 58 || c == 47 || c == 43 || c == 45
+
+def hexChar (n : Nat) : Char := Char.ofNat (hexDigit n)
+
+/-- `kit.Enc` on bytes -/
+def encBytes (bs : List Nat) : String :=
+  if bs.isEmpty then "%" else
+    String.ofList (bs.flatMap fun b =>
+      if kitSafe b then [Char.ofNat b] else ['%', hexChar (b / 16), hexChar (b % 16)])
+
+def showDs : Option (List Nat) → String
+  | some d => "ok " ++ encBytes d
+  | none => "err"
+
+def segFrom (exts : List (List String)) (ds : String) : Option String :=
+  exts.findSome? fun e =>
+    match e with
+    | ["seg", d, "=", sg] => if d == ds then some sg else none
+    | _ => none
+
 def routerStep (cfg : Cfg) (op : List String) (exts : List (List String)) : Cfg × Option String :=
   match op with
   | "ev" :: rest =>
     match parseEvent rest, parseCtx cfg rest exts with
     | some ev, some c => (cfg, some (showResult (process ev c) (immCalls ev c)))
     | _, _ => (cfg, some "bad-op")
+  | ["dsdecode", sg] => (cfg, some (showDs (datasetOf (decBytes sg))))
+  | ["dsescape", ds] => (cfg, some (encBytes (pathEscape (decBytes ds))))
+  | ["dshop", ds] =>
+    let bs := decBytes ds
+    match segFrom exts ds with
+    | none => (cfg, some "missing-ext-seg")
+    | some sg =>
+      if unclean bs || bs.isEmpty then (cfg, some "nomatch")          -- `hop = none`: no handler is called
+      else if sg != encBytes (pathEscape bs) then (cfg, some s!"unexpected-segment:{sg}")
+      else (cfg, some (showDs (hop bs)))
   | _ => (cfg, some "bad-op")
 
 /-! ## Monitor: C19's conclusion evaluated on the implementation's observations -/
@@ -244,6 +295,27 @@ def routerMon (cfg : Cfg) (op : List String) (exts : List (List String)) (obs : 
                   chkSame "collector" rest ev m.tid host c.obj
               | _ => [mkFail s!"C19:span-local-route:{sinkStr}:err={err}" s!"locally owned span went to {sinkStr} (err={err})"])
       (cfg, fails)
+  | ["dshop", ds], some o =>
+    -- the dataset an event is stored under must not change because the event crossed a listener
+    if o == "ok " ++ ds then (cfg, []) else
+    match o.splitOn " " with
+    | ["ok", got] =>
+      let a := decBytes ds
+      let b := decBytes got
+      let firstDiff := ((a.zip b).find? fun p => p.1 != p.2).map (·.1)
+      let cls := match firstDiff with
+        | some x => s!"byte={x}"
+        | none => if a.length < b.length then "longer" else "shorter"
+      (cfg, [mkFail s!"C19:dataset-changed-across-hop:{cls}" s!"dataset {ds} arrives as {got} after one hop"])
+    | _ =>
+      let cls := if unclean (decBytes ds) then "unclean-path" else (o.splitOn " ").headD "?"
+      (cfg, [mkFail s!"C19:dataset-lost-across-hop:{cls}" s!"dataset {ds} does not arrive after one hop: {o}"])
+  | ["dsdecode", sg], some o =>
+    -- a path segment without '%' is the dataset name itself ('+' is a plus sign, not a space)
+    let bs := decBytes sg
+    if bs.isEmpty || bs.contains 37 then (cfg, []) else
+    if o == "ok " ++ sg then (cfg, []) else
+      (cfg, [mkFail "C19:dataset-segment-not-literal" s!"path segment {sg} (no escapes) read as dataset: {o}"])
   | _, _ => (cfg, [])
 
 def comp : Component Cfg Cfg where
